@@ -9,6 +9,7 @@ import (
 	"strings"
 	"unicode"
 	"unicode/utf16"
+	"unicode/utf8"
 )
 
 const (
@@ -142,6 +143,8 @@ func (lineParser *LineParser) parseMarkup() (*ParseResult, error) {
 		}
 	}
 
+	text := builder.String()
+
 	if !characterAttributeIsPresent {
 		match := endOfCharacterMarker.FindStringIndex(lineParser.input)
 		if match != nil {
@@ -164,8 +167,20 @@ func (lineParser *LineParser) parseMarkup() (*ParseResult, error) {
 		}
 	}
 
+	// The returned text is trimmed: express every attribute relative to the trimmed text, so that
+	// its range always lies inside it.
+	trimmedText := strings.TrimSpace(text)
+	leadingWhitespace := utf8.RuneCountInString(text) - utf8.RuneCountInString(strings.TrimLeftFunc(text, unicode.IsSpace))
+	trimmedLength := utf8.RuneCountInString(trimmedText)
+	for i := range attributes {
+		start := min(max(attributes[i].Position-leadingWhitespace, 0), trimmedLength)
+		end := min(max(attributes[i].Position+attributes[i].Length-leadingWhitespace, start), trimmedLength)
+		attributes[i].Position = start
+		attributes[i].Length = end - start
+	}
+
 	return &ParseResult{
-		Text:       strings.TrimSpace(builder.String()),
+		Text:       trimmedText,
 		Attributes: attributes,
 	}, nil
 }
